@@ -547,6 +547,9 @@ pub proof fn lemma_wsum(vs: Seq<Voter>, ws: Seq<u64>, n: int)
     r is Ok ==> forall|j: int| 0 <= j < msg.voters@.len() ==> voter_of(final(deps.storage).view(), (#[trigger] msg.voters@[j]).addr@) == Some(msg.voters@[j].weight)
 @ensures C05.instantiate_no_proposals
     r is Ok ==> count(final(deps.storage).view()) == 0
+@ensures C05.instantiate_config_as_given C03 C06
+    r is Ok ==> cfg_of(final(deps.storage).view()) is Some && cfg_of(final(deps.storage).view())->Some_0.threshold == msg.threshold
+        && cfg_of(final(deps.storage).view())->Some_0.max_voting_period == msg.max_voting_period
 @adapter map_sum 1
 @closure_types 1
     v: &Voter
